@@ -1,1 +1,31 @@
-"""Signature predicates for known findings: fn(minimised_events, violation) -> bool."""
+"""Signature predicates for known findings: fn(minimised_events, violation) -> bool.
+
+A signature identifies a finding by the specific history / fault shape that fails, so that a
+different violation of the same property is still reported as a VIOLATION.
+"""
+import re
+
+SCHEMA_ACTIONS = ("AddColumn", "RemoveColumn", "RenameColumn", "ModifyColumn",
+                  "AddTable", "RemoveTable", "RenameTable")
+
+
+def _fault_site(violation):
+  m = re.search(r"injected (\w+)#\d+ in (\w+)", violation.get("detail", ""))
+  return (m.group(1), m.group(2)) if m else (None, None)
+
+
+def c04_fault_inside_schema_doc_action(events, violation):
+  """F-i: an exception raised *inside* a schema doc action (after it started mutating, incl. at
+  its exit) is answered by restoring the schema copy and rebuilding user code, which re-creates
+  the affected Column/Table objects empty; the bundle-level rollback then finds nothing to undo."""
+  kind, action = _fault_site(violation)
+  return kind in ("F2sch", "F3s", "F3r", "F3x") and action in SCHEMA_ACTIONS
+
+
+def c04_fault_mid_record_doc_action(events, violation):
+  """F-u: BulkUpdateRecord / BulkRemoveRecord / ReplaceTableData append their undo action only
+  after mutating the columns, so an exception between two Column.set calls leaves cells changed
+  that no undo action describes."""
+  kind, action = _fault_site(violation)
+  return kind == "F3s" and action in ("BulkUpdateRecord", "BulkRemoveRecord", "ReplaceTableData",
+                                      "BulkAddRecord")
